@@ -194,7 +194,14 @@ def make_case(t):
     cond = built[1]
     term = enc.enc_cond(cond)
     js = enc.outcome(lambda: cond.to_json_like())
-    c.ask(["to_json", term], ["ok", enc.enc_val(js[1])] if js[0] == "ok" else js, "to_json")
+    def zero_opaque(j):
+        # a DataPath object emitted as it is (finding D10) is one anonymous object to the model
+        if isinstance(j, list):
+            if len(j) == 2 and j[0] == "o":
+                return ["o", 0]
+            return [zero_opaque(x) for x in j]
+        return j
+    c.ask(["to_json", term], ["ok", zero_opaque(enc.enc_val(js[1]))] if js[0] == "ok" else js, "to_json")
     if js[0] != "ok":
         c.fail("serialises", f"to_json_like raised {js[1]}")
         return c
